@@ -32,6 +32,8 @@ pub enum Term {
     Relax,
     Eol,
     Ext,
+    /// The `\input` comes out of a parameterless macro (`\def\xIa{\input fa }`, call `\xIa `).
+    Macro,
 }
 
 #[derive(Clone, Debug, Serialize, Deserialize, PartialEq, Eq)]
@@ -39,6 +41,8 @@ pub enum Piece {
     Text(String),
     Input { file: usize, term: Term },
     EndInput,
+    /// `\endinput` out of a macro (`\def\xE{\endinput}`, call `\xE `).
+    EndInputMacro,
 }
 
 #[derive(Clone, Debug, Serialize, Deserialize, PartialEq, Eq)]
@@ -81,6 +85,7 @@ fn render_piece(p: &Piece) -> String {
                 name
             };
             match term {
+                Term::Macro => format!("\\xI{} ", (b'a' + (*file % FILE_NAMES.len()) as u8) as char),
                 Term::Space => format!("\\input {name} "),
                 Term::Relax => format!("\\input {name}\\relax "),
                 Term::Eol => format!("\\input {name}"),
@@ -94,6 +99,7 @@ fn render_piece(p: &Piece) -> String {
             }
         }
         Piece::EndInput => "\\endinput ".to_string(),
+        Piece::EndInputMacro => "\\xE ".to_string(),
     }
 }
 
@@ -169,7 +175,7 @@ fn flatten_line(
                 };
                 resumed = true;
             }
-            Piece::EndInput => {
+            Piece::EndInput | Piece::EndInputMacro => {
                 if in_file {
                     ended = true;
                 }
@@ -212,10 +218,22 @@ fn flatten_main(case: &InlineCase, sem: Sem) -> Vec<String> {
         .collect()
 }
 
-const INLINE_PREAMBLE: &str = "\\def\\par{<P>}%";
+fn inline_preamble() -> String {
+    let mut s = String::from("\\def\\par{<P>}\\def\\xE{\\endinput}");
+    for (i, n) in FILE_NAMES.iter().enumerate() {
+        let written = if n.contains('.') {
+            format!("{n}.tex")
+        } else {
+            n.to_string()
+        };
+        s.push_str(&format!("\\def\\xI{}{{\\input {written} }}", (b'a' + i as u8) as char));
+    }
+    s.push('%');
+    s
+}
 
 fn inline_job(case: &InlineCase, lines: Vec<String>) -> Job {
-    let mut all = vec![INLINE_PREAMBLE.to_string()];
+    let mut all = vec![inline_preamble()];
     all.extend(lines);
     Job {
         lines: all,
@@ -275,14 +293,18 @@ fn gen_inline(rng: &mut Rng) -> InlineCase {
                     let term = if last && rng.chance(1, 3) {
                         Term::Eol
                     } else {
-                        [Term::Space, Term::Space, Term::Relax, Term::Ext][rng.below(4)].clone()
+                        [Term::Space, Term::Space, Term::Relax, Term::Ext, Term::Macro][rng.below(5)].clone()
                     };
                     l.push(Piece::Input {
                         file: rng.below(max_file),
                         term,
                     });
                 } else if x < 33 && allow_end {
-                    l.push(Piece::EndInput);
+                    l.push(if rng.chance(1, 4) {
+                        Piece::EndInputMacro
+                    } else {
+                        Piece::EndInput
+                    });
                 } else {
                     l.push(Piece::Text(texts[rng.below(texts.len())].to_string()));
                 }
@@ -368,7 +390,7 @@ fn eval_inline(case: &InlineCase, ev: &mut Evaluation) {
         .iter()
         .chain(case.files.iter().flat_map(|f| f.lines.iter()))
         .flatten()
-        .any(|p| matches!(p, Piece::EndInput));
+        .any(|p| matches!(p, Piece::EndInput | Piece::EndInputMacro));
     ev.nontrivial = tex != original;
     if tex != original {
         ev.bump("inline_cases_with_at_least_one_inlined_file");
